@@ -463,6 +463,8 @@ class Emitter:
             elif s.startswith('//@rename '):
                 a, b = s.split()[1:3]
                 renames.append((a, b))
+            elif s.startswith('//@reveal '):
+                hints.append(('@start', ['        proof { reveal(%s); }' % s.split()[1]]))
             elif s.startswith('//@sigsub '):
                 a, b = s[len('//@sigsub '):].split(' => ', 1)
                 sigsubs.append((a.strip(), b))
